@@ -29,4 +29,45 @@ PROPS = {
             'the config-check policy is the default one (load_config_policy not called)',
         ],
     },
+    'C12': {
+        'steps': [{'script': 'corr_recipe.py', 'timeout': 900,
+                   'timeout_thorough': 3000},
+                  {'script': 'oracle_c12.py', 'timeout': 600}],
+        'required_theorems': ['C12_roundtrip_partial', 'C12_shipped_files_load',
+                              'C12_default_recipes_reexport',
+                              'C12_noquant_config_refuted',
+                              'C12_default_config_refuted'],
+        'rule': ('R: the C11 histories (every RLoadSelf step is a json.dumps/loads round trip '
+                 'into a fresh RecipeManager, compared step by step with the model); '
+                 'F: every file under recipes/ loaded by the implementation vs Gen/Recipes.v '
+                 'through Model/RecipeFile.v; oracle: save/reload of the final recipe of random '
+                 'histories (recipe equality, resolution at 30 (op,scope) pairs). '
+                 'non-trivial = recipe with >= 2 rules; distinct = distinct recipe JSON'),
+        'trusted_base': COMMON_TB + [
+            'json.dumps/json.loads and dataclasses.asdict are exercised by the harness, not modelled (to_dict is modelled as "None fields absent")',
+        ],
+        'assumptions': [
+            'byte-identical quantize() output after reload follows from equal rule lists (C11 resolution is a function of the rule list) and the determinism of the pipeline (C14); it is additionally executed in the graph-level step when present',
+            'C12_roundtrip_partial is guarded by `loadable` (exactly the guard the code imposes); the complement is the finding class F9a/F9b (KNOWN_FINDINGS.json)',
+        ],
+    },
+    'C13': {
+        'steps': [{'script': 'corr_lattice.py', 'timeout': 600}],
+        'required_theorems': ['C13_accept_sound', 'C13_accept_iff_kernel',
+                              'C13_reject_total', 'C13_star_consistent',
+                              'C13_specific_refused'],
+        'rule': ('the full finite lattice enumerated exhaustively on both sides: 2 algorithms x 24 '
+                 'operator names x 5 activation settings x 24 weight settings x 2 precisions x 2 '
+                 'explicit_dequantize = 23040 points (classification: not constructible / '
+                 'ValueError / accepted), plus the unrolled policy table, the registry for 3x25 '
+                 '(alg,op) and get_tensor_transformations on 480x4 inputs. non-trivial = accepted '
+                 'points (distinct by construction)'),
+        'trusted_base': COMMON_TB + [
+            'Spec/KernelTypes.v: hand transcription of which (op, mode, widths) LiteRT kernels support; validated by execution in the runtime step',
+        ],
+        'assumptions': [
+            'lattice as stated in the property (block-wise granularity, skip_checks and custom policies are outside it)',
+            'runtime soundness of accepted pairs (interpreter prepares, outputs track float model) is validated by execution, not proved',
+        ],
+    },
 }
